@@ -34,9 +34,15 @@ def run(ctx):
                       "loop keeps the word (push), records a redirection (push), arms the `operand follows` state, or "
                       "returns an error - a word containing `>` that fits none of the spellings must not just disappear "
                       "(`echo hi >a>b` would print to the terminal and create no file)")
+    ctx.rule("R04-10", "every redirection written on the line is applied (an earlier `> a` must still create / truncate a, "
+                       "and fail the command when a cannot be opened): crate-wide, a list of (fd, op, target) triples is "
+                       "never shortened (remove / dedup* / retain / truncate / pop / drain / clear / swap_remove / "
+                       "split_off) and never walked through a lossy adaptor (filter / skip / take / step_by / last / nth "
+                       "/ skip_while / take_while)")
     for crate in ctx.crates:
         input_order_rule(ctx, crate)
         no_drop_rule(ctx, crate)
+        keep_all_rule(ctx, crate)
         opener_rule(ctx, crate)
         body = crate.fn("core::run_single_program")
         if not ctx.require(body is not None, "R04-2", "R04-2|anchor", "core::run_single_program not found"):
@@ -462,3 +468,55 @@ def no_drop_rule(ctx, crate):
     ctx.ob("R04-9", b.path, "every iteration accounts for its token (%d accounting blocks, %d impossible `captures == None` "
                             "edge(s) excluded)" % (len(accounted), n_caps), ok,
            key="R04-9|%s|token-dropped" % b.path, where=b.loc((witness or [h])[-1]), crate=crate.kind, detail=detail)
+
+
+REDIRECTION_TY = "(std::string::String, std::string::String, std::string::String)"
+SHRINKING = {"remove", "dedup", "dedup_by", "dedup_by_key", "retain", "retain_mut", "truncate", "pop", "drain", "clear",
+             "swap_remove", "split_off", "extract_if"}
+LOSSY = {"filter", "filter_map", "skip", "take", "step_by", "last", "nth", "skip_while", "take_while", "nth_back"}
+
+
+def keep_all_rule(ctx, crate):
+    n_sites = 0
+    bad = []
+    for b in crate.fns():
+        if "::tests::" in b.path:
+            continue
+        for bb, t, c in b.calls():
+            ls = last_seg(c)
+            a = b.call_args(bb)
+            if not a:
+                continue
+            if ls in SHRINKING and "Vec" in c:
+                root = mir.root_local_expr(b.expand_vars(strip_sites(a[0])))
+                ty = ""
+                rty = b.locals[root]["ty"] if root is not None else ""
+                if REDIRECTION_TY in (ty or "") or ("Vec<" + REDIRECTION_TY in rty) or \
+                        any(flow.is_field_named(x, "redirects_to") for x in mir.subexprs(b.expand_vars(strip_sites(a[0])))):
+                    n_sites += 1
+                    bad.append((b, bb, ls))
+            elif ls in LOSSY and ("Iter" in c or "iter" in c):
+                e = b.expand_vars(strip_sites(a[0]))
+                src_ty = ""
+                if a[0][0] == "var":
+                    src_ty = b.locals[a[0][1]]["ty"]
+                if REDIRECTION_TY in src_ty or any(flow.is_field_named(x, "redirects_to") for x in mir.subexprs(e)):
+                    n_sites += 1
+                    bad.append((b, bb, ls))
+    # the vector's producers and consumers must exist (anchor: the rule is not vacuous)
+    users = [b.path for b in crate.fns() if any(REDIRECTION_TY in l["ty"] for l in b.locals)]
+    if not ctx.require(len(users) >= 3, "R04-10", "R04-10|anchor", "fewer than 3 functions handle a redirection list (%d)" % len(users)):
+        return
+    seen = set()
+    for b, bb, ls in bad:
+        k = (b.path, ls)
+        if k in seen:
+            continue
+        seen.add(k)
+        ctx.ob("R04-10", b.path, "redirection list shortened / thinned by %s" % ls, False,
+               key="R04-10|%s|%s" % (b.path, ls), where=b.loc(bb), crate=crate.kind,
+               detail="a redirection the user wrote is not applied: its file is neither created nor truncated, and an "
+                      "unopenable target no longer fails the command")
+    if not bad:
+        ctx.ob("R04-10", "(crate)", "no redirection list is shortened or thinned (%d functions handle one)" % len(users), True,
+               key="R04-10|crate|kept", crate=crate.kind, nontrivial=True)
